@@ -54,6 +54,7 @@ func runOracle(prop string, seed uint64, n int, tier, out, extra string) {
 	failSeen := map[string]bool{}
 	// ORACLE_STOP_AFTER=k: stop once k failures outside every known-finding class were
 	// found (used when a broken tie makes the check search for one failing input)
+	progress := os.Getenv("ORACLE_PROGRESS")
 	stopAfter, unclassified := 0, 0
 	if v := os.Getenv("ORACLE_STOP_AFTER"); v != "" {
 		fmt.Sscan(v, &stopAfter)
@@ -64,6 +65,11 @@ func runOracle(prop string, seed uint64, n int, tier, out, extra string) {
 		}
 		if hung {
 			break
+		}
+		if progress != "" {
+			// a fatal runtime error (stack overflow, out of memory) kills the process and
+			// cannot be recovered: the check reads the input that was running from this file
+			os.WriteFile(progress, []byte(in+"\n"), 0o644)
 		}
 		detail, sig, class := safeCheck(o, in, res.Dist)
 		if detail != "" && class == "" {
